@@ -82,7 +82,7 @@ def multiTermF (beta : Float) (z1 z2 z3 : C) (P1 P2 P3 wi wj wk wl : Float) : C 
   let a1 := z1 - ofR P1; let a2 := z2 - ofR P2; let a3 := z3 - ofR P3
   let d12 := z1 + z2 - ofR P1 - ofR P2
   let d23 := z2 + z3 - ofR P2 - ofR P3
-  let amb (d : C) : Bool := d.abs > 1.0e-12 && d.abs < 1.0e-5
+  let amb (d : C) : Bool := d.abs > 1.0e-9 && d.abs < 1.0e-7
   let t1 := ofR (-(wj + wk)) / (a1 * a2 * a3)
   let t2 := ofR (wi + wl) / (a1 * (z1 + z2 + z3 - ofR P1 - ofR P2 - ofR P3) * a3)
   let t3 := (if d12.abs < 1.0e-8 then ofR (beta * wi) else ofR (wk - wi) / d12) / (a1 * a3)
@@ -114,36 +114,65 @@ def specChi (s : Sys) (w : Array Float) (ops : Array Mat) (x4 : Mat) (zs : Array
             (acc.1 + t, acc.2.1 || amb, acc.2.2 + t.abs)) acc) acc) acc) acc) (czero, false, 0.0)
   |> fun r => let _ := sx; r
 
+/-- What the full-space bosonic Lehmann sum says about one value of χ_AB, split by how the library is documented to
+treat each term: `x` the value of the definition; `filtered` the part carried by terms the library certainly drops
+(pole outside the 1e-8 resonance window, |residue| below the 1e-8 residue tolerance); `unsure` the absolute size of what
+cannot be attributed because a tolerance test is numerically undecidable; `ideal` the absolute deviation caused by
+treating poles inside the resonance window as exactly zero; `tot` the sum of absolute values of all terms. -/
+structure SuscSpec where
+  x : C := czero
+  filtered : C := czero
+  unsure : Float := 0.0
+  ideal : Float := 0.0
+  tot : Float := 0.0
+
+/-- `(1 − e^{−y}) / y`, stable near `y = 0` -/
+def phiF (y : Float) : Float := if Float.abs y < 1.0e-4 then 1.0 - y / 2.0 + y * y / 6.0 else (1.0 - Float.exp (-y)) / y
+
+/-- `w_a − w_b` for `w_b = w_a e^{−βP}` without cancellation for small `βP` -/
+def weightDiff (beta wa wb P : Float) : Float :=
+  let y := beta * P
+  if Float.abs y < 1.0e-4 then wa * y * phiF y else wa - wb
+
+def undecided (v thr rel : Float) : Bool := v > thr * (1.0 - rel) && v < thr * (1.0 + rel)
+
 /-- full-space bosonic Lehmann sum for χ_AB(iΩ_n) incl. the static limit -/
-def specSusc (s : Sys) (w : Array Float) (A B : Mat) (n : Int) : C × Bool × Float :=
+def specSusc (s : Sys) (w : Array Float) (A B : Mat) (n : Int) : SuscSpec :=
   let omega := 2.0 * Float.ofInt n * 3.141592653589793 / s.beta
   let z : C := ⟨0.0, omega⟩
-  (List.range s.dim).foldl (fun acc a => (List.range s.dim).foldl (fun (acc : C × Bool × Float) b =>
+  (List.range s.dim).foldl (fun acc a => (List.range s.dim).foldl (fun (acc : SuscSpec) b =>
     let x := mget A a b * mget B b a
     if x.abs == 0.0 then acc else
     let P := s.E[b]! - s.E[a]!
-    let amb := Float.abs P > 1.0e-12 && Float.abs P < 1.0e-5
-    let t : C := if Float.abs P < 1.0e-8 then (if n == 0 then x * ofR (s.beta * w[a]!) else czero)
-                 else -(x * ofR (w[a]! - w[b]!)) / (z - ofR P)
-    (acc.1 + t, acc.2.1 || amb, acc.2.2 + t.abs)) acc) (czero, false, 0.0)
+    let dw := weightDiff s.beta w[a]! w[b]! P
+    -- the definition (P = 0 exactly: the β-proportional term at n = 0, nothing otherwise)
+    let exact : C := if P == 0.0 then (if n == 0 then x * ofR (s.beta * w[a]!) else czero)
+                     else if n == 0 then x * ofR (dw / P) else -(x * ofR dw) / (z - ofR P)
+    -- the documented zero-pole treatment
+    let zeroPole : C := if n == 0 then x * ofR (s.beta * w[a]!) else czero
+    let r := (x * ofR dw).abs
+    let acc := { acc with x := acc.x + exact, tot := acc.tot + exact.abs }
+    if undecided (Float.abs P) 1.0e-8 1.0e-4 then { acc with unsure := acc.unsure + (exact - zeroPole).abs + exact.abs }
+    else if Float.abs P < 1.0e-8 then { acc with ideal := acc.ideal + (exact - zeroPole).abs }
+    else if undecided r 1.0e-8 1.0e-3 then { acc with unsure := acc.unsure + exact.abs }
+    else if r < 1.0e-8 then { acc with filtered := acc.filtered + exact }
+    else acc) acc) {}
 
-/-- contribution of the terms whose residue is below the library's documented residue tolerance
-(they may legitimately be dropped) -/
-def suscDroppedBudget (s : Sys) (w : Array Float) (A B : Mat) (n : Int) : Float :=
-  let omega := 2.0 * Float.ofInt n * 3.141592653589793 / s.beta
-  let z : C := ⟨0.0, omega⟩
-  (List.range s.dim).foldl (fun acc a => (List.range s.dim).foldl (fun (acc : Float) b =>
-    let x := mget A a b * mget B b a
-    let P := s.E[b]! - s.E[a]!
-    if x.abs == 0.0 || Float.abs P < 1.0e-8 then acc else
-    let r := x * ofR (w[a]! - w[b]!)
-    if r.abs ≤ 2.0e-8 then acc + (r / (z - ofR P)).abs else acc) acc) 0.0
-
-def specSuscTau (s : Sys) (w : Array Float) (A B : Mat) (tau : Float) : C :=
-  (List.range s.dim).foldl (fun acc a => (List.range s.dim).foldl (fun (acc : C) b =>
+/-- the same for χ_AB(τ) = ⟨A(τ) B⟩ -/
+def specSuscTau (s : Sys) (w : Array Float) (A B : Mat) (tau : Float) : SuscSpec :=
+  (List.range s.dim).foldl (fun acc a => (List.range s.dim).foldl (fun (acc : SuscSpec) b =>
     let x := mget A a b * mget B b a
     if x.abs == 0.0 then acc else
-    acc + x * ofR (boltz s tau a b)) acc) czero
+    let P := s.E[b]! - s.E[a]!
+    let exact := x * ofR (boltz s tau a b)
+    let zeroPole := x * ofR w[a]!
+    let r := (x * ofR (weightDiff s.beta w[a]! w[b]! P)).abs
+    let acc := { acc with x := acc.x + exact, tot := acc.tot + exact.abs }
+    if undecided (Float.abs P) 1.0e-8 1.0e-4 then { acc with unsure := acc.unsure + (exact - zeroPole).abs + exact.abs }
+    else if Float.abs P < 1.0e-8 then { acc with ideal := acc.ideal + (exact - zeroPole).abs }
+    else if undecided r 1.0e-8 1.0e-3 then { acc with unsure := acc.unsure + exact.abs }
+    else if r < 1.0e-8 then { acc with filtered := acc.filtered + exact }
+    else acc) acc) {}
 
 /-- Gauss-Jordan inverse of a small complex matrix (partial pivoting) -/
 def cinv (a : Mat) : Option Mat := Id.run do
